@@ -6,6 +6,7 @@
    ts_of_descr order = TypeSystemDeserializer, `order` being what toposort_flatten returned; order_okb = the contract of
    toposort_flatten (every declared name once, a declared supertype before its subtypes); canon = types sorted by name. *)
 From Cassis Require Import Base Descr DescrProofs DescrProofs2 DescrProofs3.
+From Cassis Require TS TSProofs DescrTS DescrTSProofs.
 
 (* Round trip.  For every well-formed type system (unique trimmed type names, closed references, no feature declared
    again along a supertype chain, a DocumentAnnotation) and every admissible creation order: reading what was written
@@ -132,6 +133,49 @@ Theorem C12_permutation_invariant_all : forall d1 d2 o1 o2,
 Proof. exact permutation_invariant_all. Qed.
 Print Assumptions C12_permutation_invariant_all.
 
+(* ---- the tie to C10 / C11 ("for every type system obtained by ... XML loading ...").  Vocabulary of coq/DescrTS.v:
+   tsys_of_content l = the type system of the hierarchy model TS.v obtained by replaying, on TypeSystem(
+   add_document_annotation_type=False), what the reader does with the created types l (in creation order): create_type for
+   each, then create_feature type by type, feature by feature -- an exception of any call is the result;  user_view ts =
+   the types of ts that are not predefined, in registration order, as (name, description, supertype, own features);
+   builtin_view ts = the predefined ones as (name, supertype, own features);  TS.WFh / TS.WF = the invariants under which
+   every query theorem of Props/C10.v / Props/C11.v is stated;  wf_contentb l = unique names, wf_stypeb, no feature name
+   repeated along a supertype chain, parents first. ---- *)
+
+(* Type systems loaded from XML are well-formed type systems of the hierarchy model, and both models talk about the same
+   thing: for a well-formed descriptor and any admissible order the replay succeeds, its result satisfies WFh and WF (so
+   all of C10 and C11 applies to it), the user types read back from it -- names, descriptions, supertypes, own features
+   with range, element type, flag, description, reserved name, in creation order -- are exactly the content the
+   descriptor-level model computed, and the predefined types are those of a fresh type system. *)
+Theorem C12_loaded_WF : forall d order s,
+  wf_descrb d = true -> named_descrb d = true -> order_okb order d = true -> ts_of_descr order d = Ok s ->
+  exists ts, DescrTS.tsys_of_content (s_types s) = Ok ts /\ TS.WFh ts /\ TS.WF ts /\
+             DescrTS.user_view ts = s_types s /\ DescrTS.builtin_view ts = DescrTS.builtin_view TS.init_ts_nodoc.
+Proof. exact DescrTSProofs.loaded_WF. Qed.
+Print Assumptions C12_loaded_WF.
+
+(* the same for any well-formed content listed parents first (e.g. what the API built) *)
+Theorem C12_embedding_ok : forall l, DescrTS.wf_contentb l = true ->
+  exists ts, DescrTS.tsys_of_content l = Ok ts /\ TS.WF ts /\
+             DescrTS.user_view ts = l /\ DescrTS.builtin_view ts = DescrTS.builtin_view TS.init_ts_nodoc.
+Proof. exact DescrTSProofs.embed_ok. Qed.
+Print Assumptions C12_embedding_ok.
+
+(* whatever the content, the replay ends in a type system satisfying the invariant (a refused call changes nothing) *)
+Theorem C12_embedding_always_WF : forall l, TS.WF (fst (TS.run_ts (DescrTS.ops_of_types l) TS.init_ts_nodoc)).
+Proof. exact DescrTSProofs.embed_WF. Qed.
+Print Assumptions C12_embedding_always_WF.
+
+(* an instance: is_instance_of, TypeSystem.subsumes and Type.subsumes agree on every type system loaded from XML *)
+Theorem C12_loaded_queries_agree : forall d order s,
+  wf_descrb d = true -> named_descrb d = true -> order_okb order d = true -> ts_of_descr order d = Ok s ->
+  exists ts, DescrTS.tsys_of_content (s_types s) = Ok ts /\
+    forall a p, In a ts -> In p ts -> TS.t_name p <> "" ->
+    exists r, TS.is_instance_of ts (TS.t_name a) (TS.t_name p) = Ok r /\ TS.ts_subsumes ts (TS.t_name p) (TS.t_name a) = Ok r /\
+              TS.subsumes_ty ts p a = Ok r.
+Proof. exact DescrTSProofs.loaded_queries_agree. Qed.
+Print Assumptions C12_loaded_queries_agree.
+
 (* regression: the writer before commit fa385f5 moved an API-extended DocumentAnnotation on re-emission *)
 Theorem C12_reemit_docann_position_old_refuted :
   exists s order s', wf_tsb s = true /\ order_okb order (descr_of_ts_old s) = true /\
@@ -209,3 +253,12 @@ Example C12_redefinition_rejected :
 Proof. repeat split; vm_compute; reflexivity. Qed.
 Example C12_lax_premise : wf_descr_laxb ex_descr = true.
 Proof. vm_compute. reflexivity. Qed.
+
+(* the embedding on the example: the loaded content is a well-formed content listed parents first, and read back it is itself *)
+Example C12_embedding_example :
+  DescrTS.wf_contentb (s_types (state_of ["Top"; "a.B"; DOCANN; "z.B"] ex_descr)) = true /\
+  match DescrTS.tsys_of_content (s_types (state_of ["Top"; "a.B"; DOCANN; "z.B"] ex_descr)) with
+  | Ok ts => TS.wfb ts && list_eqb stype_eqb (DescrTS.user_view ts) (s_types (state_of ["Top"; "a.B"; DOCANN; "z.B"] ex_descr))
+  | _ => false
+  end = true.
+Proof. split; vm_compute; reflexivity. Qed.
